@@ -621,7 +621,12 @@ def gen_c13(rng):
 
     def bitlist():
         n = rng.randint(1, 3)
-        return sorted(set(rng.choice(interesting) if rng.random() < 0.7 else rng.randrange(W) for _ in range(n)))
+        l = sorted(set(rng.choice(interesting) if rng.random() < 0.7 else rng.randrange(W) for _ in range(n)))
+        if rng.random() < 0.25:
+            # a position listed twice, any order: still the same set
+            l = l + [rng.choice(l)]
+            rng.shuffle(l)
+        return l
     for _ in range(rng.randint(1, 6)):
         r = rng.random()
         if r < 0.12:
@@ -631,12 +636,13 @@ def gen_c13(rng):
                              pixels=rand_pixels(rng, mk, unique=False, nmax=6), bits=bad))
         elif r < 0.6:
             hist.append(dict(op='bits', h=0, which='set', pixels=rand_pixels(rng, mk, unique=False, nmax=8),
-                             bits=bitlist()))
+                             bits=bitlist(), as_tuple=rng.random() < 0.3))
         elif r < 0.8:
             hist.append(dict(op='bits', h=0, which='clear', pixels=rand_pixels(rng, mk, unique=False, nmax=8),
-                             bits=bitlist()))
+                             bits=bitlist(), as_tuple=rng.random() < 0.3))
         elif r < 0.88:
-            hist.append(dict(op='sop', h=0, out=0, inplace=True, fn=rng.choice(['&', '|', '^']), bits=bitlist()))
+            hist.append(dict(op='sop', h=0, out=0, inplace=True, fn=rng.choice(['&', '|', '^']), bits=bitlist(),
+                             as_tuple=rng.random() < 0.3))
         else:
             # update_values_pix with one packed row per pixel; for or/and a pixel is repeated with a
             # different row (accumulation over repeated pixels)
@@ -649,7 +655,7 @@ def gen_c13(rng):
                     st['values'].append(rand_value(rng, mk))
             hist.append(st)
         hist.append(chk(0))
-        hist.append(dict(op='chkbits', h=0, bitlists=[[b] for b in interesting] + [bitlist()]))
+        hist.append(dict(op='chkbits', h=0, bitlists=[[b] for b in interesting] + [bitlist()], as_tuple=rng.random() < 0.3))
     if rng.random() < 0.25:
         # union / intersection operations on the sets (C06 on wide masks): the second map uses the bits of
         # ONE byte only, so whole bytes are empty in one operand
@@ -668,6 +674,11 @@ def gen_c13(rng):
         hist.append(dict(op='mop', out=5, name=name, hs=hs))
         hist.append(chk(5))
         hist.append(dict(op='chkbits', h=5, bitlists=[[b] for b in interesting]))
+    if rng.random() < 0.3:
+        # a map derived with a copying bit-list operator, then growth of either side, each re-checked with its bits
+        hist += cross_check_derived(rng, mk, 0, 30)
+        hist.append(dict(op='chkbits', h=30, bitlists=[[b] for b in interesting[:3]]))
+        hist.append(dict(op='chkbits', h=0, bitlists=[[b] for b in interesting[:3]]))
     return hist
 
 
